@@ -1070,9 +1070,15 @@ func (ce *commandEncoder) end() {
 // commandEncoder.end to release the lock.
 func (ce *commandEncoder) flush() {
 	if err := ce.Encoder.CRLF(); err != nil {
-		// TODO: consider stashing the error in Client to return it in future
-		// calls
-		ce.client.closeWithError(err)
+		// If the server has rejected the command instead of sending a
+		// continuation request, the command has already completed with that
+		// error: nothing more is sent for it and the connection stays usable.
+		var imapErr *imap.Error
+		if !errors.As(err, &imapErr) {
+			// TODO: consider stashing the error in Client to return it in
+			// future calls
+			ce.client.closeWithError(err)
+		}
 	}
 	ce.Encoder = nil
 }
